@@ -4,7 +4,9 @@ HEADER = """C20 — Graphs may be mutated from inside edge loops and traversal c
    an ARBITRARY callback that may return a changed heap. All theorems below are for arbitrary callbacks (no purity
    assumption) unless stated. `logcb cb` (coq/model/Mutation.v) is cb instrumented to log (heap at the call, edge handed
    out); the *_log_erase theorems show the instrumentation does not change the run. `mk_cb step .. script` (Callback.v) is
-   the closure the correspondence uses: it executes scripted node operations at given invocation indices. Handles stay valid
+   the closure the correspondence uses: it executes scripted node operations at given invocation indices; the driver wraps
+   it (ocaml/driver.ml wrap_cb) to also run container operations, nested searches / loops / orderings, comparisons and sizeof
+   from inside the closure — one more instance of "arbitrary callback". Handles stay valid
    by construction: allocation ids are never reused or removed from the heap. That the implementation's iterators really hold
    no borrow/lock across the body is what the correspondence checks (RefCell panics / lock probe / watchdog)."""
 REQUIRES = ["From Gdsl.Model Require Import Spec Callback Mutation.", "From Gdsl.Proofs Require Import MutationProof."]
